@@ -15,14 +15,25 @@ CHECK = Check(
         "relative, its root finder's starting point is not part of the state and the property allows the solver tolerance)",
     ],
     assumptions=["all input series of a call have the same length (true of the real input arrays)"],
+    partial=[
+        "hotstart_Sacramento_partial: HotStart is false (hotstart_Sacramento_counterexample, KF-C06-Sacramento-uh-buffer: the unit-hydrograph buffer qq is a local re-created at each call); proved at R only for uh2..uh5 = 0, uh1 != 0, 1+side != 0",
+        "hotstart_InstreamDissolvedNutrientDecay_partial: HotStart is false with decay enabled (hotstart_InstreamDissolvedNutrientDecay_counterexample, KF-C06-InstreamDissolvedNutrientDecay-prevVolume); proved for doDecay < 0.5 (any arithmetic)",
+        "hotstart_StorageRouting_partial: HotStart is false bit-exactly (hotstart_StorageRouting_counterexample: the root-finder seed qi is a local; the difference is within the 1e-3 mass-balance tolerance the property allows; an empty second part also zeroes the two dead state columns); proved exactly when the carried qi equals a fresh call's seed 0.0 and the second part has >= 1 step; exact split law storageRouting_split",
+        "hotstart_InstreamFineSediment_partial: HotStart is false for a negative carried channel store (re-read as a fraction of the maximum storage at every call; hotstart_InstreamFineSediment_counterexample needs maximum storage < 0, i.e. unphysical parameters); proved for every split with a non-negative carried store, and unconditionally at R for maximum storage >= 0 (hotstart_InstreamFineSediment_real)",
+        "hotstart_GR4J: needs IntRoundTrip (int(float(n)) = n for the store sizes n1, n2); instantiated at R (hotstart_GR4J_real)",
+        "hotstart_StorageTrapAll_of_add_zero: needs y + 0.0 = y (false in IEEE only for y = -0.0); instantiated at R (hotstart_StorageTrapAll_real)",
+    ],
 )
 
 META = dict(
     category="proof",
-    text="Lean 4 theorems `HotStart M.model` for the stateful kernel models: running a period in one call equals running its parts "
-         "consecutively from the carried-forward final states (outputs concatenate, final states agree) — exact, for every split "
-         "point, parameter set and series, over any arithmetic (so also the Float instance). The models are tied to the real "
-         "wrappers+kernels by split-run correspondence; the oracle compares one-call and split-call results of the real code.",
+    text="Lean 4 theorems `hotstart_<M> : HotStart M.model` for the stateful kernel models (11 of 17 over ANY arithmetic, hence also the Float "
+         "instance; GR4J and StorageTrapAll given one arithmetic law, instantiated at R): running a period in one call equals running its parts "
+         "consecutively from the carried-forward final states (outputs concatenate, final states agree), for every split point, parameter set "
+         "and series; for the four models where it is false (Sacramento, InstreamDissolvedNutrientDecay, StorageRouting bit-exactly, "
+         "InstreamFineSediment with a negative carried store) a proved counter-example and a `_partial` theorem under the hypothesis that "
+         "removes the leak. The models are tied to the real wrappers+kernels by split-run correspondence; the oracle compares one-call and "
+         "split-call results of the real code.",
     design_ref="DESIGN.md §6 C06",
     note="Trusted: Lean kernel + 3 standard axioms; kernel models hand-written (correspondence-checked). Known findings: Sacramento "
          "unit-hydrograph buffer and InstreamDissolvedNutrientDecay prevVolume are not part of the state vector.",
